@@ -3,15 +3,18 @@
 \* mjv_addGeoms, acquireGeom / releaseGeom; engine_vis_init.c: mjv_makeScene).
 \*
 \* A scene is a buffer of `cap` slots (maxgeom), its fill level (ngeom = Len(scene)) and a sticky `status` flag.
-\* mjv_addGeoms walks the geom SOURCES of the model in a fixed order (here: the model's geoms, then its sites;
-\* every other source is switched off through the visualization flags) and tries to acquire one slot per visible
+\* mjv_addGeoms walks the geom SOURCES of the model in a fixed order (here: the model's geoms, sites, spatial tendons,
+\* joints and actuators - the last three only when their visualization flag is on, joints and actuators only with the
+\* decor category; every other source is switched off) and tries to acquire one slot per visible
 \* element; the first failed acquisition of a scene sets status (and raises one warning); a source stops at its
 \* first failed acquisition, the sources after it are still visited.  mjv_updateScene = clear + mjv_addGeoms.
 \* The walk is modelled element by element (one action per visited element) so that "never more than cap slots
 \* written" is an invariant of EVERY intermediate state; the result of the walk is compared with the declarative
 \* definition  Take(Visible(options), room)  by the invariant Faithful.
 \*
-\* Visible: element of an enabled group (group index clamped into 0..5), of a category selected by the category
+\* Visible: element of an enabled group - the group of an element is ANY integer and is clamped into 0..5 before the
+\* lookup in the group vector of ITS OWN kind (negative -> 0, 6 and above -> 5; the vectors of the other kinds, which
+\* are adjacent in mjvOption, must not matter) -, of a category selected by the category
 \* mask (static = welded to the world, dynamic = everything else; the static category is dropped when the STATIC
 \* flag is off), in model order.
 \* Deliberate, named deviation following the code: AlphaSkip - an element whose alpha is 0 takes part in the
@@ -25,6 +28,8 @@ CONSTANTS Models,     \* model names explored
           Caps,       \* scene capacities
           GMasks,     \* sets of enabled geom groups
           SMasks,     \* sets of enabled site groups
+          JMasks, TMasks, AMasks,   \* sets of enabled joint / tendon / actuator groups
+          FlagSets,   \* sets of switched-on sources among {"joint", "tendon", "actuator"}
           Statics,    \* values of the STATIC visualization flag
           CatMasks,   \* category masks (bit 1 static, bit 2 dynamic, bit 4 decor)
           QPos,       \* positions of the slide joint
@@ -76,18 +81,47 @@ ModelA == [
                 Elem("b4", 3, 1, "sphere", <<1>>, <<0, 0, 0>>, NoRot) >>,
   sites  |-> << Elem("world", 0, 1, "sphere", <<1>>, <<0, 0, 8>>, NoRot),
                 Elem("b1", 3, 1, "box", <<1, 1, 2>>, <<0, 4, 0>>, RZ),
-                Elem("b2", 0, 1, "sphere", <<1>>, <<0, 0, 0>>, NoRot) >> ]
+                Elem("b2", 0, 1, "sphere", <<1>>, <<0, 0, 0>>, NoRot) >>,
+  jgroups |-> <<0>>, tendons |-> << >>, acts |-> << >> ]
 \* nothing to draw
 ModelB == [bodies |-> [b1 |-> Body("world", <<0, 0, 4>>, NoRot, "slide", FALSE)], order |-> <<"b1">>,
-           geoms |-> << Elem("b1", 4, 0, "sphere", <<1>>, <<0, 0, 0>>, NoRot) >>, sites |-> << >>]
+           geoms |-> << Elem("b1", 4, 0, "sphere", <<1>>, <<0, 0, 0>>, NoRot) >>, sites |-> << >>,
+           jgroups |-> <<0>>, tendons |-> << >>, acts |-> << >>]
 \* one dynamic body carrying six geoms of one group, two static sites
 ModelC == [bodies |-> [b1 |-> Body("world", <<0, 0, 4>>, RX, "slide", FALSE)], order |-> <<"b1">>,
            geoms |-> [i \in 1..6 |-> Elem("b1", 1, 1, "sphere", <<i>>, <<4 * i, 0, 0>>, NoRot)],
            sites |-> << Elem("world", 1, 1, "sphere", <<1>>, <<0, 0, 0>>, NoRot),
-                        Elem("world", 1, 1, "sphere", <<1>>, <<4, 0, 0>>, NoRot) >>]
-Def(m) == CASE m = "A" -> ModelA [] m = "B" -> ModelB [] OTHER -> ModelC
+                        Elem("world", 1, 1, "sphere", <<1>>, <<4, 0, 0>>, NoRot) >>,
+           jgroups |-> <<0>>, tendons |-> << >>, acts |-> << >>]
+\* groups outside 0..5 in every kind of element: four sliding bodies; jgroups = groups of their joints, a tendon is
+\* [group, first site, second site] (one straight segment), an actuator [group, joint] (joint transmission)
+ModelD == [
+  bodies |-> [b1 |-> Body("world", <<4, 0, 4>>, NoRot, "slide", FALSE),
+              b2 |-> Body("world", <<8, 0, 4>>, NoRot, "slide", FALSE),
+              b3 |-> Body("world", <<12, 0, 4>>, RX, "slide", FALSE),
+              b4 |-> Body("world", <<16, 0, 4>>, NoRot, "slide", FALSE)],
+  order  |-> <<"b1", "b2", "b3", "b4">>,
+  geoms  |-> << Elem("world", 7, 1, "box", <<1, 1, 1>>, <<0, 8, 0>>, NoRot),
+                Elem("world", 0, 1, "sphere", <<1>>, <<0, 12, 0>>, NoRot),
+                Elem("b1", -3, 1, "sphere", <<2>>, <<0, 0, 0>>, NoRot),
+                Elem("b2", 6, 1, "capsule", <<1, 2>>, <<0, 0, 0>>, NoRot),
+                Elem("b3", 100, 1, "box", <<1, 2, 1>>, <<0, 0, 0>>, NoRot),
+                Elem("b4", 5, 1, "sphere", <<1>>, <<0, 0, 0>>, NoRot) >>,
+  sites  |-> << Elem("world", -1, 1, "sphere", <<1>>, <<0, 0, 8>>, NoRot),
+                Elem("b1", 6, 1, "sphere", <<1>>, <<0, 4, 0>>, NoRot),
+                Elem("b2", 5, 1, "box", <<1, 1, 1>>, <<0, 4, 0>>, NoRot),
+                Elem("b3", 0, 1, "sphere", <<1>>, <<0, 4, 0>>, NoRot),
+                Elem("b4", 9, 1, "sphere", <<1>>, <<0, 4, 0>>, NoRot) >>,
+  jgroups |-> <<-2, 6, 5, 0>>,
+  tendons |-> << [group |-> 7, s1 |-> 1, s2 |-> 2], [group |-> -4, s1 |-> 3, s2 |-> 4],
+                 [group |-> 5, s1 |-> 0, s2 |-> 1], [group |-> 0, s1 |-> 2, s2 |-> 3] >>,
+  acts    |-> << [group |-> 6, joint |-> 0], [group |-> -1, joint |-> 1], [group |-> 5, joint |-> 2], [group |-> 0, joint |-> 3] >> ]
+Def(m) == CASE m = "A" -> ModelA [] m = "B" -> ModelB [] m = "C" -> ModelC [] OTHER -> ModelD
 NG(m) == Len(Def(m).geoms)
 NS(m) == Len(Def(m).sites)
+\* number of elements that can ever be drawn (joints, tendons, actuators only in the model that has tendons / actuators)
+NVis(m) == NG(m) + NS(m) + (IF Def(m).tendons = << >> /\ Def(m).acts = << >> THEN 0
+                            ELSE Len(Def(m).tendons) + Len(Def(m).jgroups) + Len(Def(m).acts))
 
 \* a body is static iff it is welded to the world: no joint and no mocap on the way up
 RECURSIVE IsStatic(_, _)
@@ -114,12 +148,47 @@ Clamp(g) == IF g < 0 THEN 0 ELSE IF g > 5 THEN 5 ELSE g
 Cat(m, e) == IF IsStatic(m, e.body) THEN 1 ELSE 2
 \* the category mask after mjv_addGeoms has dropped the static bit when the STATIC flag is off
 EffMask(o) == IF o.static THEN o.cat ELSE {c \in o.cat : c # 1}
-Seen(m, e, mask, o) == Cat(m, e) \in EffMask(o) /\ Clamp(e.group) \in mask
-Source(m, kind) == IF kind = "geom" THEN Def(m).geoms ELSE Def(m).sites
-Mask(o, kind) == IF kind = "geom" THEN o.gmask ELSE o.smask
+\* the sources in the order of mjv_addGeoms; every element as [group, alpha, cat]
+Kinds == <<"geom", "site", "tendon", "joint", "actuator">>
+KindSet == {Kinds[i] : i \in 1..5}
+SourceRaw(m, kind) ==
+  CASE kind = "geom"   -> [i \in 1..NG(m) |-> [group |-> Def(m).geoms[i].group, alpha |-> Def(m).geoms[i].alpha, cat |-> Cat(m, Def(m).geoms[i])]]
+    [] kind = "site"   -> [i \in 1..NS(m) |-> [group |-> Def(m).sites[i].group, alpha |-> Def(m).sites[i].alpha, cat |-> Cat(m, Def(m).sites[i])]]
+    [] kind = "tendon" -> [i \in 1..Len(Def(m).tendons) |-> [group |-> Def(m).tendons[i].group, alpha |-> 1, cat |-> 2]]
+    [] kind = "joint"  -> [i \in 1..Len(Def(m).jgroups) |-> [group |-> Def(m).jgroups[i], alpha |-> 1, cat |-> 4]]
+    [] OTHER           -> [i \in 1..Len(Def(m).acts) |-> [group |-> Def(m).acts[i].group, alpha |-> 1, cat |-> 4]]
+\* (a constant table: TLC evaluates it once)
+SourceTab == [m \in {"A", "B", "C", "D"} |-> [k \in KindSet |-> SourceRaw(m, k)]]
+Source(m, kind) == SourceTab[m][kind]
+\* the group vector of a kind, and the vectors stored before / after it in mjvOption (geom, site, joint, tendon, actuator,
+\* flex, skin; flex groups are all off here, what precedes the geom vector is not a group vector)
+Mask(o, kind) == CASE kind = "geom" -> o.gmask [] kind = "site" -> o.smask [] kind = "tendon" -> o.tmask
+                   [] kind = "joint" -> o.jmask [] OTHER -> o.amask
+MaskAfter(o, kind)  == CASE kind = "geom" -> o.smask [] kind = "site" -> o.jmask [] kind = "joint" -> o.tmask
+                         [] kind = "tendon" -> o.amask [] OTHER -> {}
+MaskBefore(o, kind) == CASE kind = "geom" -> {} [] kind = "site" -> o.gmask [] kind = "joint" -> o.smask
+                         [] kind = "tendon" -> o.jmask [] OTHER -> o.tmask
+\* a source is walked at all: tendons, joints, actuators need their flag; joints and actuators are decor
+Gate(kind, o) == CASE kind \in {"geom", "site"} -> TRUE
+                   [] kind = "tendon" -> "tendon" \in o.flags
+                   [] OTHER -> kind \in o.flags /\ 4 \in o.cat
+Seen(m, kind, e, o) == /\ Gate(kind, o)
+                       /\ (kind \in {"joint", "actuator"} \/ e.cat \in EffMask(o))
+                       /\ Clamp(e.group) \in Mask(o, kind)
 \* declarative definitions: the candidates of one source, in model order
-Cands(m, kind, o) == SelectSeq([i \in 1..Len(Source(m, kind)) |-> <<kind, i - 1, Cat(m, Source(m, kind)[i]), Source(m, kind)[i].alpha>>],
-                               LAMBDA c : Seen(m, Source(m, kind)[c[2] + 1], Mask(o, kind), o))
+Cands(m, kind, o) == SelectSeq([i \in 1..Len(Source(m, kind)) |-> <<kind, i - 1, Source(m, kind)[i].cat, Source(m, kind)[i].alpha>>],
+                               LAMBDA c : Seen(m, kind, Source(m, kind)[c[2] + 1], o))
+\* vacuity witnesses of an option: <<kind, "hi">> if a walked element of that kind has a group above 5 and the flag it must
+\* follow (its own vector, index 5) differs from the flag next to it in memory (the following vector, index 0);
+\* <<kind, "lo">> likewise for a negative group (own index 0 against index 5 of the preceding vector)
+Witnesses(m, o) ==
+  {<<k, "hi">> : k \in {kk \in KindSet : Gate(kk, o) /\ (\E i \in 1..Len(Source(m, kk)) : Source(m, kk)[i].group > 5
+                                            /\ (kk \in {"joint", "actuator"} \/ Source(m, kk)[i].cat \in EffMask(o)))
+                                         /\ ((5 \in Mask(o, kk)) # (0 \in MaskAfter(o, kk)))}}
+  \cup
+  {<<k, "lo">> : k \in {kk \in KindSet : Gate(kk, o) /\ (\E i \in 1..Len(Source(m, kk)) : Source(m, kk)[i].group < 0
+                                            /\ (kk \in {"joint", "actuator"} \/ Source(m, kk)[i].cat \in EffMask(o)))
+                                         /\ ((0 \in Mask(o, kk)) # (5 \in MaskBefore(o, kk)))}}
 \* filling `room` free slots from a candidate list: a slot is needed for every candidate that is looked at, the
 \* alpha-0 ones give theirs back; the walk stops at the first candidate that finds no slot
 RECURSIVE Fill(_, _)
@@ -129,14 +198,19 @@ Fill(cs, room) == IF cs = << >> THEN [kept |-> << >>, over |-> FALSE]
                        IF c[4] = 0 THEN Fill(Tail(cs), room)
                        ELSE LET r == Fill(Tail(cs), room - 1) IN [kept |-> <<c>> \o r.kept, over |-> r.over]
 Strip(cs) == [i \in 1..Len(cs) |-> <<cs[i][1], cs[i][2], cs[i][3]>>]
-\* the result of mjv_addGeoms on a scene that already holds n0 elements
-Expect(m, o, cp, n0) ==
-  LET g == Fill(Cands(m, "geom", o), cp - n0)
-      s == Fill(Cands(m, "site", o), cp - n0 - Len(g.kept))
-  IN [items |-> Strip(g.kept) \o Strip(s.kept), over |-> g.over \/ s.over]
+\* the result of mjv_addGeoms on a scene that already holds n0 elements: the sources one after the other
+RECURSIVE ExpectFrom(_, _, _, _)
+ExpectFrom(m, o, room, k) ==
+  IF k > 5 THEN [items |-> << >>, over |-> FALSE]
+  ELSE LET f == Fill(Cands(m, Kinds[k], o), room)
+           r == ExpectFrom(m, o, room - Len(f.kept), k + 1)
+       IN [items |-> Strip(f.kept) \o r.items, over |-> f.over \/ r.over]
+Expect(m, o, cp, n0) == ExpectFrom(m, o, cp - n0, 1)
 
-Opts == [gmask : GMasks, smask : SMasks, static : Statics, cat : CatMasks]
-DefaultOpt == [gmask |-> {0, 1, 2}, smask |-> {0, 1, 2}, static |-> TRUE, cat |-> {1, 2, 4}]
+Opts == [gmask : GMasks, smask : SMasks, jmask : JMasks, tmask : TMasks, amask : AMasks, flags : FlagSets,
+         static : Statics, cat : CatMasks]
+DefaultOpt == [gmask |-> {0, 1, 2}, smask |-> {0, 1, 2}, jmask |-> {0, 1, 2}, tmask |-> {0, 1, 2}, amask |-> {0, 1, 2},
+               flags |-> {}, static |-> TRUE, cat |-> {1, 2, 4}]
 
 VARIABLES model,     \* name of the loaded model
           cap,       \* scene capacity (maxgeom)
@@ -145,7 +219,7 @@ VARIABLES model,     \* name of the loaded model
           over,      \* ghost: some acquisition failed since the scene was made
           opt,       \* visualization options
           qp,        \* position of the slide joint
-          pc,        \* "idle" | "geom" | "site" | "end"
+          pc,        \* "idle" | the kind of the source being walked | "end"
           idx,       \* next element of the current source (1-based)
           call,      \* the API call in progress: [op, n0 (fill level at its start), warned]
           ev, nops
@@ -156,8 +230,8 @@ Idle(name) == pc = "idle" /\ name \in Ops /\ nops < MaxOps
 
 Init ==
   /\ model \in Models
-  /\ IF InitMode = "all" THEN cap \in {c \in Caps : c <= NG(model) + NS(model) + 2} /\ opt \in Opts /\ status \in Status0 /\ qp \in QPos
-     ELSE cap = NG(model) + NS(model) /\ opt = DefaultOpt /\ status = 0 /\ qp \in QPos
+  /\ IF InitMode = "all" THEN cap \in {c \in Caps : c <= NVis(model) + 2} /\ opt \in Opts /\ status \in Status0 /\ qp \in QPos
+     ELSE cap = NVis(model) /\ opt = DefaultOpt /\ status = 0 /\ qp \in QPos
   /\ scene = << >> /\ over = (status = 1) /\ pc = "idle" /\ idx = 0
   /\ call = [op |-> "none", n0 |-> 0, warned |-> FALSE] /\ nops = 0
   /\ ev = IF InitMode = "def"
@@ -169,7 +243,7 @@ Init ==
 
 \* ---- environment actions (scene idle) ------------------------------------------------------------------------------
 \* mjv_makeScene(m, scn, c): new buffer, status cleared
-MakeScene(c) == /\ Idle("MakeScene") /\ c <= NG(model) + NS(model) + 2
+MakeScene(c) == /\ Idle("MakeScene") /\ c <= NVis(model) + 2
                 /\ cap' = c /\ scene' = << >> /\ status' = 0 /\ over' = FALSE
                 /\ ev' = [op |-> "makescene", cap |-> c, in |-> In] /\ nops' = nops + 1
                 /\ UNCHANGED <<model, opt, qp, pc, idx, call>>
@@ -192,21 +266,22 @@ BeginAdd == /\ Idle("Add")
             /\ UNCHANGED <<model, cap, scene, status, over, opt, qp, ev, nops>>
 
 \* ---- the walk: one action per visited element ----------------------------------------------------------------
-NextSource == IF pc = "geom" THEN "site" ELSE "end"
+NextSource == CASE pc = "geom" -> "site" [] pc = "site" -> "tendon" [] pc = "tendon" -> "joint" [] pc = "joint" -> "actuator"
+                [] OTHER -> "end"
 Full == IF Bug = "gt" THEN Len(scene) > cap ELSE Len(scene) >= cap
-Walking == pc \in {"geom", "site"}
+Walking == pc \in KindSet
 \* the source is exhausted
 SourceDone == /\ Walking /\ idx > Len(Source(model, pc))
               /\ pc' = NextSource /\ idx' = 1
               /\ UNCHANGED <<model, cap, scene, status, over, opt, qp, call, ev, nops>>
 \* category masked or group disabled: next element
 Skip == /\ Walking /\ idx <= Len(Source(model, pc))
-        /\ ~Seen(model, Source(model, pc)[idx], Mask(opt, pc), opt)
+        /\ ~Seen(model, pc, Source(model, pc)[idx], opt)
         /\ idx' = idx + 1
         /\ UNCHANGED <<model, cap, scene, status, over, opt, qp, pc, call, ev, nops>>
 \* acquireGeom fails: status (and one warning per scene), the source is abandoned
 Overflow == /\ Walking /\ idx <= Len(Source(model, pc))
-            /\ Seen(model, Source(model, pc)[idx], Mask(opt, pc), opt)
+            /\ Seen(model, pc, Source(model, pc)[idx], opt)
             /\ Full
             /\ status' = 1 /\ over' = TRUE
             /\ call' = [call EXCEPT !.warned = call.warned \/ status = 0]
@@ -214,16 +289,16 @@ Overflow == /\ Walking /\ idx <= Len(Source(model, pc))
             /\ UNCHANGED <<model, cap, scene, opt, qp, ev, nops>>
 \* acquireGeom succeeds; an invisible element (alpha 0) gives the slot back, any other is released into the scene
 Acquire == /\ Walking /\ idx <= Len(Source(model, pc))
-           /\ Seen(model, Source(model, pc)[idx], Mask(opt, pc), opt)
+           /\ Seen(model, pc, Source(model, pc)[idx], opt)
            /\ ~Full
            /\ LET e == Source(model, pc)[idx] IN
-              scene' = IF e.alpha = 0 THEN scene ELSE Append(scene, <<pc, idx - 1, Cat(model, e)>>)
+              scene' = IF e.alpha = 0 THEN scene ELSE Append(scene, <<pc, idx - 1, e.cat>>)
            /\ idx' = idx + 1
            /\ UNCHANGED <<model, cap, status, over, opt, qp, pc, call, ev, nops>>
 \* the call returns
 EndCall == /\ pc = "end"
            /\ pc' = "idle" /\ nops' = nops + 1
-           /\ ev' = [op |-> call.op, in |-> call.in,
+           /\ ev' = [op |-> call.op, in |-> call.in, wit |-> Witnesses(model, call.in.opt),
                      ret |-> [ngeom |-> Len(scene), status |-> status, warned |-> call.warned, items |-> scene]]
            /\ UNCHANGED <<model, cap, scene, status, over, opt, qp, idx, call>>
 
@@ -235,8 +310,8 @@ Next == DoMakeScene \/ DoSetOpt \/ DoMove \/ BeginUpdate \/ BeginAdd
 Spec == Init /\ [][Next]_vars
 
 \* ---- properties ------------------------------------------------------------------------------------------------------
-TypeOK == /\ status \in {0, 1} /\ pc \in {"idle", "geom", "site", "end"}
-          /\ \A i \in 1..Len(scene) : scene[i][1] \in {"geom", "site"}
+TypeOK == /\ status \in {0, 1} /\ pc \in {"idle", "end"} \cup KindSet
+          /\ \A i \in 1..Len(scene) : scene[i][1] \in KindSet
 \* never more elements than the capacity, in every intermediate state of every call
 Bounded == Len(scene) <= cap
 \* overflow is reported: the status flag is set exactly if some acquisition has failed since the scene was made
@@ -249,17 +324,29 @@ Faithful == (pc = "idle" /\ ev.op \in {"update", "add"}) =>
                /\ ev.ret.status = (IF x.over THEN 1 ELSE ev.in.status)
                /\ ev.ret.warned = (x.over /\ ev.in.status = 0)
 \* ngeom = min(number of visible, non-transparent elements, capacity) for a whole-scene update
-VisibleKept(m, o) == SelectSeq(Cands(m, "geom", o) \o Cands(m, "site", o), LAMBDA c : c[4] = 1)
+VisibleKept(m, o) == SelectSeq(Cands(m, "geom", o) \o Cands(m, "site", o) \o Cands(m, "tendon", o) \o Cands(m, "joint", o)
+                                \o Cands(m, "actuator", o), LAMBDA c : c[4] = 1)
 Min(a, b) == IF a < b THEN a ELSE b
 MinLaw == (pc = "idle" /\ ev.op = "update") =>
              /\ ev.ret.ngeom = Min(Len(VisibleKept(model, ev.in.opt)), cap)
              /\ ev.ret.status = 0 => ev.ret.items = Strip(VisibleKept(model, ev.in.opt))
 \* with only geom visualization enabled the scene holds exactly the geoms whose group is enabled (AlphaSkip aside)
-OnlyGeoms == (pc = "idle" /\ ev.op = "update" /\ ev.in.opt.smask = {} /\ ev.ret.status = 0 /\ ev.in.opt.static
+OnlyGeoms == (pc = "idle" /\ ev.op = "update" /\ ev.in.opt.smask = {} /\ ev.in.opt.flags = {} /\ ev.ret.status = 0 /\ ev.in.opt.static
               /\ {1, 2} \subseteq ev.in.opt.cat) =>
                {ev.ret.items[i][2] : i \in 1..Len(ev.ret.items)} =
                  {i - 1 : i \in {j \in 1..NG(model) : Clamp(Def(model).geoms[j].group) \in ev.in.opt.gmask
                                                       /\ Def(model).geoms[j].alpha = 1}}
+\* group law, element by element: without overflow an element is in the scene iff its source is walked, its category is
+\* selected, it is not transparent and the flag of its OWN group vector at clamp(group, 0, 5) is set
+GroupLaw == (pc = "idle" /\ ev.op = "update" /\ ev.ret.status = 0) =>
+              \A k \in KindSet : \A i \in 1..Len(Source(model, k)) :
+                 LET e == Source(model, k)[i] IN
+                 (\E x \in 1..Len(ev.ret.items) : ev.ret.items[x][1] = k /\ ev.ret.items[x][2] = i - 1) <=>
+                   (/\ Gate(k, ev.in.opt) /\ (k \in {"joint", "actuator"} \/ e.cat \in EffMask(ev.in.opt)) /\ e.alpha = 1
+                    /\ (IF e.group < 0 THEN 0 ELSE IF e.group > 5 THEN 5 ELSE e.group) \in Mask(ev.in.opt, k))
+\* the model with out-of-range groups has one above 5 and one below 0 in every kind
+ASSUME \A k \in KindSet : (\E i \in 1..Len(Source("D", k)) : Source("D", k)[i].group > 5)
+                          /\ (\E i \in 1..Len(Source("D", k)) : Source("D", k)[i].group < 0)
 \* without overflow in its history a scene never reports one
 NoFalseAlarm == [][(status = 0 /\ status' = 1) => (Walking /\ Len(scene) >= cap)]_vars
 \* the walk has no choice: exactly one walk action is enabled in every walking state, so the result is a function
@@ -273,6 +360,12 @@ AllGroups == SUBSET {0, 1, 2, 3, 5}
 FewGroups == {{0, 1, 2, 3, 4, 5}, {0, 1, 2}, {1}, {2, 5}, {}}
 SiteMasks == {{}, {0, 1, 2}, {0, 3}}
 NoSites   == {{}}
+NoFlags   == {{}}
+AllFlags  == {{"joint", "tendon", "actuator"}}
+EdgeMasks == {{0}, {5}}
+EdgeMasks3 == {{0}, {5}, {0, 1, 2, 3, 4, 5}}
+CapsD     == {4, 25}
+ModelsD   == {"D"}
 BothBool  == BOOLEAN
 OnlyTrue  == {TRUE}
 AllCats   == {{1, 2, 4}, {1, 2}, {2}, {1, 4}, {4}}
@@ -286,6 +379,7 @@ Q02       == {0, 2, -1}
 St0       == {0}
 St01      == {0, 1}
 ModelsABC == {"A", "B", "C"}
+ModelsABCD == {"A", "B", "C", "D"}
 ModelsA   == {"A"}
 ModelsBC  == {"B", "C"}
 CallOps   == {"Update", "Add"}
